@@ -11,6 +11,12 @@ CHECKS = {
 }
 NA = {
 }
+CHECKS["C01"] = dict(cat="proof", design="§3 C01",
+    text="Product/inverse/identity/to_Matrix/from_Matrix of every exposed group and three direct products are executed on CasADi symbols; homomorphism, two-sided inverse, identity, neutrality, associativity and the from_Matrix right-inverse law are proved per matrix entry as polynomial/rational identities on rational charts of the group manifolds (all elements except measure-zero chart points covered by a second chart).",
+    note="trusted: CasADi SX/instruction API, IR->SMT encoder (validated per run), charts (S^3 stereographic both signs, Weierstrass angles), inverse-trig contracts, z3. Real arithmetic. Matrix-based products (DCM, Euler) and MRP from_Matrix are verified modularly (cut at from_Matrix + right-inverse lemma). Associativity of MRP-based groups is the corollary of the homomorphism law (direct identity not attempted). Euler: pitch band +-(1e-3+1e-9) excluded.")
+CHECKS["C04"] = dict(cat="proof", design="§3 C04",
+    text="Ad/ad/bracket of every group/algebra executed symbolically; (Ad_X y)^ = M(X) y^ M(X^-1), Ad homomorphism and inverse, ad = bracket = matrix commutator, antisymmetry, Jacobi, block-diagonal direct-sum ad, and Ad_exp(x) = expm(ad_x) in closed form (Rodrigues / Barfoot quartic) are proved per entry; wrong shapes and crashes of offered operations are violations.",
+    note="trusted: as C01 plus the closed forms of expm(ad) and the theorem Ad_{exp A} = expm(ad_A) (used for SE_2(3)/Euler where exp ends in from_Matrix). Operations raising NotImplementedError are out of scope as the property states.")
 ALL = [f"C{i:02d}" for i in range(1, 21)]
 PENDING = "check not built yet in this session (machinery under construction); see DESIGN.md for the planned encoding"
 
